@@ -261,22 +261,47 @@ Section Resolve.
     end.
 
   (* diff_mode keeps an unresolved variable textual: "$name", or "$(name)" where the bare form would
-     read differently - a dotted name, or identifier characters following (fix of
-     C08-diff-variable-adjacent); [nx] = the fragments after this one *)
-  Definition diff_text (v:str) (nx:list fragment) : str :=
+     read differently - a dotted name, or identifier characters following in the resulting string
+     (fix of C08-diff-variable-adjacent); [fc] = the first character of what the later fragments
+     contribute *)
+  Definition diff_text (v:str) (fc:option ascii) : str :=
     if existsb (Ascii.eqb ".") v
-       || match nx with
-          | FLit (c :: _) :: _ => negb (Ascii.eqb c ".") && vid_cont c
-          | _ => false
+       || match fc with
+          | Some c => negb (Ascii.eqb c ".") && vid_cont c
+          | None => false
           end
     then "$" :: "(" :: v ++ [")"] else "$" :: v.
+
+  (* "".join(later.result.value for later in fragments[i+1:])[:1] - the second loop of
+     resolve_variables runs after every fragment has its result; when a later fragment fails the
+     whole word fails with that error, whatever is returned here.  A later unresolved variable
+     contributes a text that starts with "$" in either form. *)
+  Fixpoint following_char rec (diff:bool) (chain:ctx) (stop:nat) (w:word) (nx:list fragment)
+    : option ascii :=
+    match nx with
+    | [] => None
+    | FLit (c :: _) :: _ => Some c
+    | FLit [] :: r => following_char rec diff chain stop w r
+    | FVar u :: r =>
+        match lookup_var rec diff chain stop w u ["$"] with
+        | Ok ws => match vjoin_sp (map wv ws) with
+                   | c :: _ => Some c
+                   | [] => following_char rec diff chain stop w r
+                   end
+        | _ => None
+        end
+    end.
+
+  (* the text kept for the unresolved variable v in front of the fragments nx *)
+  Definition dtext rec (diff:bool) (chain:ctx) (stop:nat) (w:word) (v:str) (nx:list fragment) : str :=
+    diff_text v (if diff then following_char rec diff chain stop w nx else None).
 
   Definition frag_result rec (diff:bool) (chain:ctx) (stop:nat) (w:word) (force:bool) (f:fragment)
              (nx:list fragment) : res fresult :=
     match f with
     | FLit v => Ok (RWord (mkword v Q2 0))
     | FVar v =>
-        do vws <- lookup_var rec diff chain stop w v (diff_text v nx);
+        do vws <- lookup_var rec diff chain stop w v (dtext rec diff chain stop w v nx);
         if negb force then Ok (RWords vws)
         else Ok (RWord (mkword (vjoin_sp (map wv vws)) Q2 0))
     end.
